@@ -34,10 +34,15 @@ class Monitor:
         self.quiet = 0           # >0 while an oracle runs
         self.nsample = 0
         self.notes = []
+        self.ticks = 0
+        self.rearm = None        # set by the worker: re-arms the per-case CPU watchdog
 
     # -- recording -------------------------------------------------------------------
     def ev(self, name, n=1):
         self.evals[name] += n
+        self.ticks += 1
+        if not self.ticks & 255 and self.rearm:
+            self.rearm()      # the watchdog budget is per stretch without any oracle evaluation, so bulk cases do not trip it
 
     def count(self, name, n=1):
         self.counters[name] += n
@@ -64,6 +69,9 @@ class Monitor:
     def check(self, name, ok, sig, what="", **detail):
         """one oracle evaluation of monitor `name`"""
         self.evals[name] += 1
+        self.ticks += 1
+        if not self.ticks & 255 and self.rearm:
+            self.rearm()
         if not ok:
             self.viol(sig, what or name, **detail)
         return ok
